@@ -597,6 +597,18 @@ Definition run_arith (op : Z) (p q : list key) : tr :=
   | 9%Z => match path_key p with Some k => ok (ekey k) | None => err 0%Z end
   | 10%Z => ok (ebool (str_eqb (format p) (format q)))
   | 11%Z => ok (enat (length p))
+  (* comparison with a string compares the printed paths as strings *)
+  | 12%Z => ok (ebool (match str_cmp (format p) (format q) with Lt => true | _ => false end))
+  | 13%Z => ok (ebool (match str_cmp (format p) (format q) with Gt => false | _ => true end))
+  | 14%Z => ok (ebool (match str_cmp (format p) (format q) with Gt => true | _ => false end))
+  | 15%Z => ok (ebool (match str_cmp (format p) (format q) with Lt => false | _ => true end))
+  (* KeyPath.parse(str(q), parent=p) *)
+  | 16%Z => match parse (format q) with
+            | POk ks => ok (epath (p ++ ks))
+            | PErr PEClose => err 10%Z | PErr PEOpen => err 11%Z | PErr PEInt => err 12%Z
+            end
+  (* KeyPath(q.keys, parent=p) *)
+  | 17%Z => ok (epath (p ++ q))
   | _ => ebad
   end.
 
